@@ -295,6 +295,8 @@ def run(ctx: Ctx):
             ctx.ob("C08.d", "MCPEnv._step:weights:uncovered-only", okw, sl.where, whyw, construct=f"{sl.fi.qualname}:weights:formula")
         ctx.sample({"env": cname, "mask_literals": [str(l) for l in leaves][:4]})
     rows_decided_per_instance(ctx)
+    from .C01 import torchrl_preset_never_overrides
+    torchrl_preset_never_overrides(ctx, "C08.k")
     from .C03 import exact_distances
     exact_distances(ctx, "C08.j", [("rl4co/envs/graph/flp/env.py", "FLPEnv._step"), ("rl4co/envs/graph/flp/env.py", "FLPEnv._reset"),
                                    ("rl4co/envs/graph/flp/generator.py", "FLPGenerator._generate")])
